@@ -751,4 +751,61 @@ theorem keyspace_scan_transparent (ks : Keyspace) (hv : ks.valid = true) (σ : K
 
 example : KvMap.wellFormed (fun _ => none) := by intro x h; exact absurd rfl h
 
+/-- reverse Scan (request start = exclusive upper bound, empty = keyspace end; request end = inclusive lower bound,
+    empty = keyspace start): same statement for the swapped pair the codec sends -/
+theorem keyspace_reverse_scan_transparent (ks : Keyspace) (hv : ks.valid = true) (σ : KvMap) (hwf : σ.wellFormed)
+    (s e x v : Bytes) :
+    (σ x = some v ∧ inInterval x (encodeRange ks s e true).2 (encodeRange ks s e true).1 = true) ↔
+    ∃ k, x = encodeKey ks k ∧ decodeKey ks x = .ok k ∧ inRangeRev k s e = true ∧ view ks σ k = some v := by
+  have h := keyspace_scan_transparent ks hv σ hwf e s x v
+  have hr : (encodeRange ks s e true).2 = (encodeRange ks e s false).1 ∧
+      (encodeRange ks s e true).1 = (encodeRange ks e s false).2 := ⟨rfl, rfl⟩
+  rw [hr.1, hr.2]
+  exact h
+
+/-- the `EpochNotMatch.CurrentRegions` loop of `decodeRegionError`: the result is exactly the list of regions that
+    `DecodeRegionRange` accepts, each replaced by its clipped logical range (`decode_region_range_clips`), in order;
+    regions outside the keyspace are dropped; only an undecodable bound fails the response -/
+theorem decode_regions_spec (ks : Keyspace) (l : List (Bytes × Bytes)) :
+    ((∀ p ∈ l, decodeRegionRange ks p.1 p.2 ≠ .error .decode) →
+      decodeRegions ks l = .ok (l.filterMap fun p =>
+        match decodeRegionRange ks p.1 p.2 with
+        | .ok r => some r
+        | .error _ => none)) ∧
+    ((∃ p ∈ l, decodeRegionRange ks p.1 p.2 = .error .decode) → decodeRegions ks l = .error .decode) := by
+  induction l with
+  | nil => exact ⟨fun _ => rfl, fun ⟨p, hp, _⟩ => by simp at hp⟩
+  | cons p rest ih =>
+    obtain ⟨s, e⟩ := p
+    constructor
+    · intro h
+      have hrest := ih.1 (fun q hq => h q (by simp [hq]))
+      have hp := h (s, e) (by simp)
+      simp only at hp
+      cases hd : decodeRegionRange ks s e with
+      | ok r => simp [decodeRegions, hd, hrest, Except.map]
+      | error x =>
+        cases x with
+        | decode => exact absurd hd hp
+        | outOfBound => simp [decodeRegions, hd, hrest]
+    · rintro ⟨q, hq, hqe⟩
+      cases hd : decodeRegionRange ks s e with
+      | error x =>
+        cases x with
+        | decode => simp [decodeRegions, hd]
+        | outOfBound =>
+          have hq' : q ∈ rest := by
+            rcases List.mem_cons.mp hq with rfl | h
+            · simp only at hqe; rw [hd] at hqe; cases hqe
+            · exact h
+          simp [decodeRegions, hd, ih.2 ⟨q, hq', hqe⟩]
+      | ok r =>
+        have hq' : q ∈ rest := by
+          rcases List.mem_cons.mp hq with rfl | h
+          · simp only at hqe; rw [hd] at hqe; cases hqe
+          · exact h
+        simp [decodeRegions, hd, ih.2 ⟨q, hq', hqe⟩, Except.map]
+
+example : decodeRegions ⟨.txn, 7⟩ [([], [])] = .ok [([], [])] := by rfl
+
 end CGV.Props.C15
